@@ -960,6 +960,16 @@ def build_marking_app(falcon, asgi):
             return h
         from falcon.routing import compiled
         app = falcon.App(middleware=[Mw()], router=compiled.CompiledRouter())
+    if asgi:
+        async def sink(req, resp, **kw):
+            await Suspend()
+            resp.media = report(req, resp, kw, True, {'sink': True})
+    else:
+        def sink(req, resp, **kw):
+            resp.media = report(req, resp, kw, False, {'sink': True})
+    app.add_sink(sink, r'/sink/(?P<key>[^/]+)')
+    app.add_static_route('/files', static_dir())
+    app.add_sink(sink, r'/files/api/(?P<key>[^/]+)')
     thing = Thing()
     app.add_route('/static', thing)
     app.add_route('/static/deep', thing)
@@ -970,6 +980,36 @@ def build_marking_app(falcon, asgi):
     app.add_error_handler(ErrB, handler('B', falcon.HTTP_503))
     return app
 
+
+_static = {}
+
+
+def static_dir():
+    """a directory with one file, for the static route of the marking apps (removed at exit)"""
+    import atexit
+    import shutil
+    import tempfile
+    if 'd' not in _static:
+        d = tempfile.mkdtemp(prefix='c19-static.', dir='/dev/shm' if os.path.isdir('/dev/shm') else None)
+        with open(os.path.join(d, 'a.txt'), 'w') as fh:
+            fh.write('static file a')
+        atexit.register(shutil.rmtree, d, True)
+        _static['d'] = d
+    return _static['d']
+
+
+# requests answered by a sink, a static route, nothing, a route: the state consulted when the router
+# finds no route is built lazily in some designs - the FIRST requests on a fresh app race on it
+FIRST_REQUESTS = [
+    {'method': 'GET', 'path': '/sink/k1/x'},
+    {'method': 'GET', 'path': '/sink/k2', 'qs': 'q=2'},
+    {'method': 'GET', 'path': '/files/a.txt'},
+    {'method': 'GET', 'path': '/files/api/k3'},
+    {'method': 'GET', 'path': '/nope'},
+    {'method': 'GET', 'path': '/static'},
+    {'method': 'GET', 'path': '/items/7'},
+    {'method': 'GET', 'path': '/err/a'},
+]
 
 MARK_REQUESTS = [
     {'method': 'GET', 'path': '/static'},
@@ -1469,6 +1509,21 @@ def main(ctx):
     for reqs, warm, wf in spairs:
         mark_thread_sweep(ctx, reqs, 1, None if quick else 6000, 'mshared', deadline=dl, warm=warm, lines=shared,
                           novel=novel, warm_fn=wf)
+    # BOTH requests are the first ever on a fresh app (fresh app per schedule, nothing warmed up):
+    # lazily built app state outside the router (fallback tables, middleware stacks, caches)
+    F = FIRST_REQUESTS
+    first_lines = {k: v for k, v in shared.items() if k.endswith(os.sep + 'app.py') or (os.sep + 'routing' + os.sep) in k}
+    fpairs = [[F[0], F[1]], [F[0], F[2]], [F[2], F[4]], [F[3], F[5]], [F[4], F[4]], [F[0], F[6]], [F[2], F[3]],
+              [F[5], F[6]], [F[7], F[1]]]
+    dl = T(14, 400)
+    for reqs in fpairs:
+        mark_thread_sweep(ctx, reqs, 1, None if quick else 6000, 'mfirst', deadline=dl, warm=[], lines=first_lines,
+                          novel=({}, 1) if quick else None)
+    if not quick:
+        for a in range(len(F)):
+            for b in range(a, len(F)):
+                mark_thread_sweep(ctx, [F[a], F[b]], 1, 3000, 'mfirst-all', deadline=T(0, 500), warm=[],
+                                  lines=first_lines)
     dl = T(20, 400)
     apairs = [([R[0], R[0]], [R[0]]), ([R[0], R[2]], []), ([R[4], R[3]], []), ([R[8], R[9]], []), ([R[5], R[6]], []),
               ([R[11], R[10]], [R[2]]), ([R[7], R[0]], [R[7]])]
@@ -1507,6 +1562,8 @@ def replay(ctx, obj):
         setup_app_lines()
         import falcon as _f
         ls = shared_state_lines(os.path.dirname(_f.__file__))[0] if obj.get('lines') == 'shared-state' else None
+        if ls is not None and str(obj.get('tag', '')).startswith('mfirst'):
+            ls = {k: v for k, v in ls.items() if k.endswith(os.sep + 'app.py') or (os.sep + 'routing' + os.sep) in k}
         mark_thread_sweep(ctx, obj['requests'], 0, None, 'replay', warm=obj.get('warm'), decisions_only=dec, lines=ls,
                           warm_fn=many_ctypes if obj.get('warm_ctypes') else None)
     elif mode == 'marks-asgi':
